@@ -183,6 +183,12 @@ func (x *Exec) loopHeader(st *State, fr *Frame, b *ssa.BasicBlock, prev *ssa.Bas
 				f.env[phi.Comment] = envEntry{v: vals[i]}
 				if phi.Comment == "rangeindex" {
 					hasRange = true
+					if lv := rangeLenValue(b, phi); lv != nil {
+						if v, ok := f.regs[lv]; ok {
+							// the length the range statement took before its first iteration
+							f.env["rangelen"] = envEntry{v: v}
+						}
+					}
 				}
 			}
 		}
@@ -467,6 +473,13 @@ func (x *Exec) havocLoop(st *State, fr *Frame, b *ssa.BasicBlock, nphi int, writ
 		fr.regs[phi] = nv
 		if phi.Comment != "" {
 			fr.env[phi.Comment] = envEntry{v: nv}
+			if phi.Comment == "rangeindex" {
+				if lv := rangeLenValue(b, phi); lv != nil {
+					if v, ok := fr.regs[lv]; ok {
+						fr.env["rangelen"] = envEntry{v: v}
+					}
+				}
+			}
 		}
 	}
 	if _, has := fr.env["rangeindex"]; !has || fr.rangeAlias[b] {
@@ -783,6 +796,28 @@ func (x *Exec) havocArrName(base string) string {
 
 // countingPhi: index of the header phi of a loop that starts at 0 outside the
 // loop and is incremented by 1 inside it (-1 unless there is exactly one).
+// rangeLenValue: for the header block of a "for i := range slice" loop, the SSA value of the
+// length taken before the loop (the bound the hidden index is compared with).
+func rangeLenValue(b *ssa.BasicBlock, phi *ssa.Phi) ssa.Value {
+	var inc ssa.Value
+	for _, in := range b.Instrs {
+		bo, ok := in.(*ssa.BinOp)
+		if !ok {
+			continue
+		}
+		if bo.Op == token.ADD && bo.X == ssa.Value(phi) {
+			inc = bo
+		}
+		if bo.Op == token.LSS && inc != nil && bo.X == inc {
+			if _, isConst := bo.Y.(*ssa.Const); isConst {
+				return nil
+			}
+			return bo.Y
+		}
+	}
+	return nil
+}
+
 func countingPhi(b *ssa.BasicBlock, l *loopT) int {
 	found := -1
 	for i, in := range b.Instrs {
